@@ -114,6 +114,10 @@ class C09(Prop):
                 if r["id"] in seen_ids or (single and seen_ids and r["id"] <= max(seen_ids)):
                     out.append(V(pid, "C09/executor-id-not-increasing", "new executor id %r after %r" % (r["id"], sorted(seen_ids))))
                 seen_ids.add(r["id"])
+            if r.get("stale_live"):
+                out.append(V(pid, "C09/live-instance-dropped-without-shutdown",
+                             "executor(s) %r (slot, id) were handed out earlier, are neither shut down nor broken, and are no "
+                             "longer the singleton when this call returned executor id %r" % (r["stale_live"], r["id"])))
             if not r["same"]:
                 old = r.get("old")
                 if old:
